@@ -7,7 +7,7 @@ use petgraph::visit::{EdgeIndexable, EdgeRef, IntoEdgeReferences, IntoNodeRefere
 use petgraph::{Directed, Direction, EdgeType, Undirected};
 use std::panic::{catch_unwind, AssertUnwindSafe};
 
-type Sg<Ty, Ix> = StableGraph<u32, u32, Ty, Ix>;
+pub type Sg<Ty, Ix> = StableGraph<u32, u32, Ty, Ix>;
 
 fn ni<Ix: IndexType>(x: i64) -> NodeIndex<Ix> { NodeIndex::new(x as usize) }
 fn ei<Ix: IndexType>(x: i64) -> EdgeIndex<Ix> { EdgeIndex::new(x as usize) }
@@ -20,7 +20,7 @@ fn eref_flat<'a, Ix: IndexType>(it: impl Iterator<Item = petgraph::stable_graph:
     v
 }
 
-fn battery<Ty: EdgeType, Ix: IndexType>(g: &Sg<Ty, Ix>) -> Vec<String> {
+pub fn battery<Ty: EdgeType, Ix: IndexType>(g: &Sg<Ty, Ix>) -> Vec<String> {
     let mut v = Vec::new();
     v.push(line("counts", &[g.node_count() as i64, g.edge_count() as i64, g.node_bound() as i64, g.edge_bound() as i64]));
     let mut nodes = Vec::new();
@@ -54,7 +54,7 @@ fn gerr(e: GraphError) -> String {
 fn opt(o: Option<u32>) -> String { match o { Some(w) => line("some", &[w as i64]), None => "none".into() } }
 fn optix(o: Option<usize>) -> String { match o { Some(w) => line("some", &[w as i64]), None => "none".into() } }
 
-fn apply<Ty: EdgeType, Ix: IndexType>(g: &mut Sg<Ty, Ix>, o: &GOp) -> Vec<String> {
+pub fn apply<Ty: EdgeType, Ix: IndexType>(g: &mut Sg<Ty, Ix>, o: &GOp) -> Vec<String> {
     let a = &o.1;
     let one = |s: String| vec![s];
     match o.0.as_str() {
@@ -105,7 +105,7 @@ fn apply<Ty: EdgeType, Ix: IndexType>(g: &mut Sg<Ty, Ix>, o: &GOp) -> Vec<String
     }
 }
 
-fn is_query(name: &str) -> bool {
+pub fn is_query(name: &str) -> bool {
     matches!(name, "node_weight" | "edge_weight" | "edge_endpoints" | "find_edge" | "find_edge_undirected" | "edges_connecting" | "contains_node" | "walker" | "to_graph")
 }
 
